@@ -34,6 +34,7 @@ from vlib import *
 import vlib, conc
 
 LEVEL = "model_checking"
+from props import wq_parts
 ASSUMPTIONS = [
     "x86-TSO memory model; serialised execution: scheduling points are the hooked shared accesses and blocking calls",
     "grace periods are abstract (harness/absrcu.h == AbstractRcu: blocking step enabled when every read-side section open at its start has ended); "
@@ -582,9 +583,15 @@ def run(ctx):
         for f in futs:
             f.result()
     shutil.rmtree(wd, ignore_errors=True)
+    # 3. the work queue itself (spec/Workqueue.tla <-> real src/workqueue.c): queue / flush (completion) / destroy / worker loop
+    if len(ctx.violations) < conc.MAXV and not only:
+        ctx.assumptions += [a for a in wq_parts.ASSUMPTIONS if a not in ctx.assumptions]
+        wq_parts.run_c09(ctx)
 
 
 def replay(ctx, path):
+    if wq_parts.is_mine(path):
+        return wq_parts.replay_c09(ctx, path)
     meta = json.load(open(os.path.join(path, "meta.json")))
     sc = load_scenario(meta["scenario"])
     if meta.get("kind") == "tlc":
